@@ -121,6 +121,14 @@ func (s *Space) ChangePerm(acc *Account, perm list.AclPermissions) *consensuspro
 	return s.accept(raw)
 }
 
+// ChangePermTwice: one record that changes the permission of acc twice (the last one stands).
+func (s *Space) ChangePermTwice(acc *Account, first, last list.AclPermissions) *consensusproto.RawRecordWithId {
+	raw, err := s.Authority.RecordBuilder().BuildPermissionChanges(list.PermissionChangesPayload{Changes: []list.PermissionChangePayload{
+		{Identity: acc.Pub(), Permissions: first}, {Identity: acc.Pub(), Permissions: last}}})
+	must(err)
+	return s.accept(raw)
+}
+
 // Remove removes accounts and rotates the read key. The real builder ranges over a Go map while
 // consuming randomness, so its record bytes differ from run to run; this harness builder produces the
 // same content in sorted identity order. The record is accepted by the real list under full validation.
